@@ -21,7 +21,7 @@ ASSUMPTIONS = [
     "best-of-k ties (equal reward within 1e-4) accept any of the tied rollouts",
     "POMO/SymNCO regrouping of per-rollout values by factor is C16's concern",
 ]
-REQUIRED_COUNTERS = ["c12_batchify_calls", "c12_unbatchify_calls", "c12_gather_calls", "c12_cache_batchify_calls", "c12_start_rows", "c12_rollout_rows", "c12_select_best_taps", "c12_best_rows", "c12_start_taps", "c12_strategy_calls", "c12_state_reward_rows"]
+REQUIRED_COUNTERS = ["c12_other_size_start_cases", "c12_batchify_calls", "c12_unbatchify_calls", "c12_gather_calls", "c12_cache_batchify_calls", "c12_start_rows", "c12_rollout_rows", "c12_select_best_taps", "c12_best_rows", "c12_start_taps", "c12_strategy_calls", "c12_state_reward_rows"]
 MIN_NONTRIVIAL = {"quick": 3000, "thorough": 30000}
 WORKERS = {"quick": 14, "thorough": 16}
 BUDGET_S = {"quick": 500, "thorough": 3000}
@@ -58,6 +58,10 @@ def cases(tier, seed):
                     for hostile in ((False, True) if name == "op" else (False,)):
                         for r in range(4 if q else 12):
                             out.append(dict(kind="starts", cfg=cfg, B=B, s=rnd.randrange(10**6), hostile=hostile, k=rnd.randrange(1, n + 3)))
+                        if name != "mtsp":  # instance size other than the env's generator size (mTSP's agent range is tied to the size)
+                            for n2 in (n + 4, 2 * n, max(3, n - 2)):
+                                n2 = n2 + (n2 % 2) if name == "pdp" else n2
+                                out.append(dict(kind="starts", cfg=cfg, B=B, s=rnd.randrange(10**6), hostile=hostile, k=rnd.randrange(1, n2 + 3), inst_n=n2))
         for cfg in (dict(env="flp", n=n + 2, k=2), dict(env="mcp", n=n + 1, items=2 * n, k=2)):
             for B in (1, 3):
                 out.append(dict(kind="starts", cfg=cfg, B=B, s=rnd.randrange(10**6), k=rnd.randrange(1, n + 3)))
